@@ -117,7 +117,9 @@ CHECKS += [
          "find_unique_graphs returns, per workflow name, exactly one trace id of every hash class among the rows just written, never two of one class, "
          "and only hashed traces (44 clauses, all inputs; ghost root table / job_hashes rows, trusted contracts for the SQL primitives - the GROUP BY "
          "itself is a trusted ghost effect: the fetched rows are representatives of the groups; termination not proved). Lemmas L1/L2 about H "
-         "(hash class = shape class) are not stated: they would need collision freedom, which D6 refutes.",
+         "(hash class = shape class) are not stated: they would need collision freedom, which D6 refutes. Also discharged here: contracts/c_run.py "
+         "(25 clauses) - the selection otel_to_pv streams under is find_unique_graphs applied to the store AFTER the three cleaning steps, with the "
+         "holder's range and buffer (store operations trusted, named by uninterpreted functions).",
          "Bounded exploration on real sqlite; oracle = canonical shapes from the abstract view. One known finding (hash input without separator, D6) is "
          "listed in KNOWN_FINDINGS.txt and printed as KNOWN-FINDING.", "DESIGN.md 4/C09"),
     chk("C10", "proof",
@@ -150,7 +152,9 @@ CHECKS += [
          "stream the runs of equal keys have strictly increasing keys; node_to_otel_event copies every stored field and gives exactly the ids of "
          "node.children as child ids; job_ids_to_eventid_to_otelevent_map yields one id->span map per trace whose parent links resolve, in order, "
          "holding every span of the trace. NOT covered by the proof: the laziness of the real nested iterators over a server-side cursor (a group is "
-         "only valid until the next is requested) and the SQL itself - that is what the bounded harness exercises.",
+         "only valid until the next is requested) and the SQL itself - that is what the bounded harness exercises. Also discharged here: "
+         "contracts/c_run.py (25 clauses) - otel_to_pv streams the cleaned store under the unique-graph selection or no filter and sequences every "
+         "workflow name with that name's configuration (store operations trusted, named by uninterpreted functions).",
          "DESIGN.md 4/C12"),
     bchk("C14", "BOUNDED (never counted as proved). Through the real entry point otel_to_puml: otel2puml on a data set versus otel2pv with saved events "
          "followed by pv2puml on the saved files, with the default and with a fully renamed field mapping, sync and async: the saved PV files hold exactly "
